@@ -1,5 +1,7 @@
 import PPProofs.Props.C08
 #print axioms PP.Parse.scanLoop_spec
+#print axioms PP.Parse.parse_fwd
+#print axioms PP.Parse.scan_match_forward_parse
 #print axioms PP.Parse.scanString_spec
 #print axioms PP.Parse.scan_each_is_direct_parse
 #print axioms PP.Parse.scan_sorted_disjoint
